@@ -578,6 +578,16 @@ def two_parents():
             ("z", (("a", "k2"),), None, None, ()))
 
 
+def two_parents_b_last():
+    """As two_parents, the scope of the second parent defined last (the
+    layout pass then meets it after both scopes of the first parent)."""
+    return (("a", (), None, None, ()),
+            ("b", (), None, None, ()),
+            ("x", (("a", "k0"),), None, None, ()),
+            ("z", (("a", "k2"),), None, None, ()),
+            ("y", (("b", "k1"),), None, None, ()))
+
+
 def order(shape, which):
     """The history: field indices (define), "V" (a complete assignment of
     values), "A" (assign_fields)."""
@@ -641,6 +651,8 @@ def units(tier, seed):
     # ---- known finding: fragmentation with two independent parents ---
     add("two parents", two_parents(), "DVA", 8, 2,
         distinct=(("k0", "k2"),), frag=True, w=FAIL, split=5)
+    add("two parents b last", two_parents_b_last(), "DVA", 8, 2,
+        distinct=(("k0", "k2"),), frag=True, split=5)
     if tier != "thorough":
         return us
     Q = ("?", None)
